@@ -242,10 +242,26 @@ func judge(ctx *Ctx, res *Result, drv *Nadrv, c *Case, o *WOutcome, base *WOutco
 		return
 	}
 	ans := drv.Ask(modelQuery(c, o.Changes, modelFixed))
-	model, _ := modelView(ans)
+	model, _, hyp := modelView(ans)
+	// hypotheses of banner_invariant_partial / rearm_on_one_minute as decided by the Lean side
+	hClean, hNoProbe := false, false
+	if hf := strings.Split(hyp, ","); len(hf) == 3 {
+		hClean, hNoProbe = hf[0] == "1", hf[1] == "1"
+	}
+	switch {
+	case hClean && hNoProbe:
+		res.Count("theorem-domain:inside")
+	case hClean:
+		res.Count("theorem-domain:probing-first-half")
+	default:
+		res.Count("theorem-domain:unclean-script")
+	}
 	res.TracesVsImpl++
 	if impl != model {
+		// the tie is broken here; the oracle below still looks for a concrete failing input
 		res.Disagree("dialogue", in, impl, model)
+	}
+	if strings.HasPrefix(impl, "BAD-LOGIN") || strings.HasPrefix(impl, "PANIC") {
 		return
 	}
 	if o.Status == 0 {
@@ -357,11 +373,17 @@ func judge(ctx *Ctx, res *Result, drv *Nadrv, c *Case, o *WOutcome, base *WOutco
 			nonBlankLines(errText(base.Stderr)) == nonBlankLines(errText(o.Stderr))
 		if !same {
 			sig := map[string]any{"pred": "banner_changes_outcome"}
-			for _, ch := range o.Changes {
-				halves := strings.Split(ch, "\n")
-				if len(halves) == 2 {
-					if p := probing(halves[0], c.Behav[halves[0]]); p != "" {
-						sig = map[string]any{"pred": "fresh_prompt_probe_swallows_reply_of_second_half", "form": p}
+			if hClean && hNoProbe {
+				// inside the domain of banner_invariant_partial: never expected
+				sig = map[string]any{"pred": "banner_changes_outcome_inside_proved_domain"}
+			} else if hClean {
+				for _, ch := range o.Changes {
+					halves := strings.Split(ch, "\n")
+					if len(halves) == 2 {
+						if p := probing(halves[0], c.Behav[halves[0]]); p != "" {
+							sig = map[string]any{"pred": "fresh_prompt_probe_swallows_reply_of_second_half", "form": p}
+							break
+						}
 					}
 				}
 			}
